@@ -43,6 +43,7 @@ def families(tier, seed):
         ("sequence_and_counts", [{"cfg": c} for c in comp]),
         ("fewshot", fewshot_cases()),
         ("rank_guard", [{"cfg": c} for c in allc]),
+        ("estimator_reuse", [{"cfg": c} for c in comp]),
     ]
     return fams
 
@@ -69,7 +70,7 @@ def guards(summary):
     info = summary["info"]
     need = ["unit_vectors_fed", "zero_vector_fed", "normal_equations_ok", "exact_recovered", "recovered_pure",
             "recovered_boundary", "recovered_interior", "sequence_orders_ok", "counts_variants_ok", "fewshot_tables",
-            "fewshot_with_empty_outcome", "guard_raised", "guard_passed", "consistency_check_ok", "overcomplete_configs",
+            "fewshot_with_empty_outcome", "reused_same_shape_other_model", "dense_nonnormalised_fed", "guard_raised", "guard_passed", "consistency_check_ok", "overcomplete_configs",
             "just_complete_configs", "flag_true", "flag_false", "qoperation_checked", "equal_count_configs"]
     for t in K.TOMOS:
         need.append("tomo_" + t)
@@ -86,7 +87,7 @@ def execute(family, params, seed):
     out.count("tomo_" + cx.tomo)
     out.count("flag_true" if cx.flag else "flag_false")
     fn = {"affine_data": ex_affine, "exact_recovery": ex_exact, "sequence_and_counts": ex_sequence,
-          "fewshot": ex_fewshot, "rank_guard": ex_guard}[family]
+          "fewshot": ex_fewshot, "rank_guard": ex_guard, "estimator_reuse": ex_reuse}[family]
     fn(out, seen, cx, params)
     out.outcome = "ok" if not out.fails else "fail:" + ",".join(sorted(seen))[:120]
     return out
@@ -148,7 +149,10 @@ def check_normal(out, seen, cx, qt, Aref, bref, cond, v, f, where, what):
         K.fail_once(out, seen, "estimated_var:shape:%s" % tag, "%s %s: shape %r, %d variables" % (where, what, v.shape, Aref.shape[1]))
         return False
     res = normal_eq_residual(Aref, bref, v, f)
-    if res > tol_for(cond):
+    if not np.all(np.isfinite(v)):
+        K.fail_once(out, seen, "estimated_var:not-finite:%s" % tag, "%s %s: estimate %r" % (where, what, v))
+        return False
+    if not (res <= tol_for(cond)):
         # does the estimate at least solve the normal equations of the library's own matrices?
         okA, matA = A.call(qt.calc_matA)
         okB, vecB = A.call(qt.calc_vecB)
@@ -259,6 +263,19 @@ def ex_affine(out, seen, cx, params):
                 else:
                     for k in range(len(vs)):
                         check_qoperation(out, seen, cx, objs[k], vs[k], "%s data=e_%d" % (where, k - 1))
+        # adversarial NON-normalised dense data (every schedule sums to something else than 1), both entry points
+        dense = [0.3 * np.ones(rows) + np.eye(rows)[k % rows] * (1.0 + 0.5 * k) for k in (0, rows // 2, rows - 1)] + [2.0 * np.ones(rows)]
+        rs = est_call(out, seen, cx, qt, pairs, [split(cx, pairs, f) for f in dense], where, sequence=True)
+        for k, f in enumerate(dense):
+            r1 = est_call(out, seen, cx, qt, pairs, split(cx, pairs, f), where)
+            n_el += 1
+            if r1 is None:
+                break
+            out.traces += 1
+            out.count("dense_nonnormalised_fed")
+            if check_normal(out, seen, cx, qt, Aref, bref, cond, r1.estimated_var, f, where, "data=dense-nonnormalised-%d" % k) and rs is not None:
+                if np.abs(np.asarray(rs.estimated_var_sequence[k], float) - np.asarray(r1.estimated_var, float)).max() > 1e-9 * max(1.0, np.abs(np.asarray(r1.estimated_var)).max()):
+                    K.fail_once(out, seen, "calc_estimate:differs-from-calc_estimate_sequence:%s" % cx.tomo, "%s data=dense-nonnormalised-%d" % (where, k))
         if rows <= limit:
             for k, f in enumerate(data):
                 r1 = est_call(out, seen, cx, qt, pairs, split(cx, pairs, f), where)
@@ -269,6 +286,52 @@ def ex_affine(out, seen, cx, params):
                 check_normal(out, seen, cx, qt, Aref, bref, cond, r1.estimated_var, f, where, "data=e_%d" % (k - 1))
     inner(out, max(0, n_el - 1))
     out.digest = A.digest(*digs) if digs else ""
+
+
+def ex_reuse(out, seen, cx, params):
+    """ONE estimator object processes several tomography objects in a row (the schedule lists of this configuration in every
+    order of length 2 and 3, incl. lists whose model has the same shape but other entries): every result must equal the
+    result of a fresh estimator, i.e. satisfy the normal equations of the current reference model."""
+    from quara.protocol.qtomography.standard.projected_linear_estimator import ProjectedLinearEstimator
+    import itertools
+    count_cfg(out, cx)
+    S = len(cx.all)
+    lists = [(n_, i_) for n_, i_ in lists_for(cx) if n_ != "all_twice"]
+    if S > 2:
+        lists.append(("rotated_all", list(range(1, S)) + [0]))
+    built = []
+    for name, idx in lists:
+        where = "%s list=%s" % (K.cfg_tag(cx.cfg), name)
+        pairs = pairs_of(cx, idx)
+        qt = make_qt(out, seen, cx, idx, where)
+        if qt is None:
+            return
+        Aref, bref, cond = model(cx, pairs)
+        rows = Aref.shape[0]
+        f = 0.2 * np.ones(rows) + np.array([np.cos(1.3 * t) for t in range(rows)]) * 0.1
+        built.append((name, pairs, qt, Aref, bref, cond, f))
+    n = 0
+    for L in (2, 3):
+        for seq in itertools.permutations(range(len(built)), L):
+            est = estimator()
+            n += 1
+            for pos, bi in enumerate(seq):
+                name, pairs, qt, Aref, bref, cond, f = built[bi]
+                ok, r = A.call(est.calc_estimate, qt, split(cx, pairs, f))
+                out.ops += 1
+                out.transitions += 1
+                if not ok:
+                    K.fail_once(out, seen, "calc_estimate:raises-on-reused-estimator:%s" % cx.tomo, "history %r: %s" % ([built[b][0] for b in seq[:pos + 1]], A.fmt_exc(r)))
+                    break
+                out.traces += 1
+                if pos > 0:
+                    out.count("reused_estimator_calls")
+                    if built[seq[pos - 1]][3].shape == Aref.shape and np.abs(built[seq[pos - 1]][3] - Aref).max() > 1e-6:
+                        out.count("reused_same_shape_other_model")
+                if not check_normal(out, seen, cx, qt, Aref, bref, cond, r.estimated_var, f, "history %r" % ([built[b][0] for b in seq[:pos + 1]],),
+                                    "reused-estimator"):
+                    break
+    inner(out, max(0, n - 1))
 
 
 def ex_exact(out, seen, cx, params):
